@@ -46,4 +46,53 @@ def cliMain (args : List String) (lib : String → Bool → LibRun) : Run :=
       { writes := pre ++ r.writes ++ [⟨.err, "ZC: …"⟩, ⟨.err, "Salida de resultados…"⟩, ⟨.out, json ++ "\n"⟩],
         status := 0 }
 
+/-! ### the companion tool `thor` (bemodel/src/bin/thor.rs) -/
+
+/-- the part of the file system the tool can touch: path ↦ content -/
+abbrev Fs := List (String × String)
+
+def Fs.read (fs : Fs) (p : String) : Option String := (fs.find? (fun e => e.1 = p)).map (·.2)
+
+/-- `File::create(path)` followed by `write_all(content)`: the file holds exactly the new content,
+whatever it held before -/
+def Fs.write (fs : Fs) (p c : String) : Fs := (p, c) :: fs.filter (fun e => e.1 ≠ p)
+
+/-- the options clap hands to `main` -/
+structure ThorArgs where
+  input : String
+  out : Option String := none       -- `-o`: model JSON
+  res : Option String := none       -- `-r`: indicators JSON
+  license : Bool := false           -- `-L`
+  v : Nat := 0                      -- number of `-v`
+
+structure ThorRun where
+  writes : List Write
+  status : Nat
+  fs : Fs
+
+/-- `writefile`: the optional notice on stdout (verbosity above 1), then create + write, or exit 73 -/
+def thorWriteFile (v : Nat) (notice : String) (canCreate : String → Bool) (p content : String) (fs : Fs) :
+    List Write × Fs × Bool :=
+  let pre : List Write := if v > 1 then [⟨.out, notice ++ p⟩] else []
+  if canCreate p then (pre, fs.write p content, true)
+  else (pre ++ [⟨.err, "ERROR: no se ha podido crear el archivo"⟩], fs, false)
+
+/-- `main` of thor.  `lib input` is parse + convert + serialise: the model JSON and the indicators JSON,
+or the error (`exit(DATAERR)`, 65) -/
+def thorMain (a : ThorArgs) (lib : String → Except String (String × String)) (canCreate : String → Bool)
+    (fs : Fs) : ThorRun :=
+  if a.license then { writes := [⟨.out, "license"⟩], status := 0, fs := fs } else
+  match lib a.input with
+  | .error e => { writes := [⟨.err, "ERROR: " ++ e⟩], status := 65, fs := fs }
+  | .ok (mj, ij) =>
+    let (w1, fs1, ok1) := match a.out with
+      | some p => thorWriteFile a.v "Modelo en formato JSON: " canCreate p mj fs
+      | none => ([], fs, true)
+    if !ok1 then { writes := w1, status := 73, fs := fs1 } else
+    let (w2, fs2, ok2) := match a.res with
+      | some p => thorWriteFile a.v "Resultados de indicadores en formato JSON: " canCreate p ij fs1
+      | none => ([], fs1, true)
+    if !ok2 then { writes := w1 ++ w2, status := 73, fs := fs2 } else
+    { writes := w1 ++ w2 ++ (if a.v > 0 then [⟨.out, ij ++ "\n"⟩] else []), status := 0, fs := fs2 }
+
 end Cte.Cli
